@@ -473,6 +473,18 @@ func (e *Exec) ccall(st *State, x *ast.CallExpr, env *cenv) Val {
 				e.fail(x.Pos(), "contract: deref of non-pointer")
 			}
 			return e.deref(st, p, pt, x.Pos())
+		case "collected":
+			// collected(W, x): x was added to the ghost set W by a `collect` clause
+			id0, ok := x.Args[0].(*ast.Ident)
+			if !ok || len(x.Args) != 2 {
+				e.fail(x.Pos(), "contract: collected(<set>, <value>)")
+			}
+			set, ok := e.ghostSet(st, id0.Name)
+			if !ok {
+				e.fail(x.Pos(), "contract: unknown ghost set %s", id0.Name)
+			}
+			v := arg(1)
+			return Val{T: Select(set.T, v.T), GT: boolT}
 		case "dyntype":
 			// dyntype(x, T): the dynamic type of interface value x is T
 			v := arg(0)
